@@ -3,7 +3,8 @@
 From stdpp Require Import gmap.
 From Coq Require Import ZArith List Lia.
 From V Require Import Base.Codec Base.Res C16.SatModel C16.SatLemmas C16.DraModel C16.DraLemmas
-  C16.QuantModel C16.QuantLemmas C16.Laws C16.LawsLemmas C16.DraLaws.
+  C16.QuantModel C16.QuantLemmas C16.Laws C16.LawsLemmas C16.DraLaws C16.OrderLemmas.
+From V Require Import Base.ResLemmas.
 Import ListNotations.
 Open Scope Z_scope.
 
@@ -219,3 +220,70 @@ Proof.
       destruct (v - w <? 0) eqn:E; lia.
   - cbn. rewrite !andb_true_iff. repeat split; try (apply zeqb_true; reflexivity); apply bool_decide_eq_true; reflexivity.
 Qed.
+
+(* ---- soundness of law 105: what a [true] answer means, as a Prop ---- *)
+Theorem law_min_dra_sound j got c :
+  law_min_dra j got = true -> In c (call_classes (contribs j)) ->
+  nonneg_terms (class_terms c (contribs j)) = true ->
+  0 <= count_of (result_at got c) /\
+  count_of (result_at got c) = Z.min max64 (exact_sum (class_terms c (contribs j))).
+Proof.
+  unfold law_min_dra, nonneg_terms. intros H Hin Hnn. apply andb_true_iff in H as [_ H].
+  rewrite forallb_forall in H. specialize (H c ltac:(apply in_or_app; left; exact Hin)). cbn zeta in H.
+  rewrite !andb_true_iff in H. destruct H as [[_ H] _]. rewrite Hnn in H.
+  apply andb_true_iff in H as [H1 H2]. apply bool_decide_eq_true in H1. apply zeqb_true in H2. auto.
+Qed.
+
+(* ---- the partial / total comparison law is exactly the four implications, and the model meets it ---- *)
+Theorem law_partial_spec a b c d e :
+  law_partial a b c d e = true <->
+  (c = true -> d = true) /\ (b = true -> d = true) /\ (a = true -> c = true) /\ (d = false -> e = true).
+Proof. destruct a, b, c, d, e; cbn; intuition congruence. Qed.
+
+Theorem law_partial_model eps r rr d : 0 < eps ->
+  law_partial (less r rr d) (less_equal eps r rr d) (less_partly r rr d) (less_equal_partly eps r rr d)
+              (less rr r d) = true.
+Proof.
+  intros He. apply law_partial_spec. repeat split.
+  - apply less_partly_implies_less_equal_partly. exact He.
+  - apply less_equal_implies_less_equal_partly.
+  - apply less_implies_less_partly.
+  - apply not_less_equal_partly_implies_greater. exact He.
+Qed.
+
+(* ---- converters ---- *)
+Lemma trunc_of_quot g x : 0 < g -> trunc_of g x (Z.quot x g) = true.
+Proof.
+  intros Hg. unfold trunc_of.
+  pose proof (float_quantity_float_bounds g true x Hg) as [H1 H2]. cbn zeta in *.
+  rewrite (float_quantity_float g true x Hg) in *.
+  destruct (bool_decide (0 <= x)) eqn:E.
+  - apply bool_decide_eq_true in E. specialize (H1 E). apply andb_true_iff. split; apply bool_decide_eq_true; lia.
+  - apply bool_decide_eq_false in E. specialize (H2 ltac:(lia)). apply andb_true_iff. split; apply bool_decide_eq_true; lia.
+Qed.
+
+Theorem law_f2q2f_model g c x mant e : 0 < g ->
+  float_is mant e (Z.quot x g) = true ->
+  law_f2q2f g c x (float_to_quantity g c x) mant e = true.
+Proof.
+  intros Hg Hf. unfold law_f2q2f, float_to_quantity. destruct c; cbn [orb].
+  - rewrite trunc_of_quot by exact Hg. exact Hf.
+  - rewrite (Z.mul_comm 1000), Z.mod_mul, Z.div_mul by lia.
+    rewrite trunc_of_quot by exact Hg. rewrite Hf. reflexivity.
+Qed.
+
+Theorem law_q2f2q_model c m mant e :
+  float_is mant e (quantity_to_float 1 c m) = true ->
+  law_q2f2q m c mant e (float_to_quantity 1 c (quantity_to_float 1 c m)) = true.
+Proof.
+  intros Hf. rewrite quantity_float_quantity by lia. unfold law_q2f2q, quantity_to_float in *.
+  destruct c.
+  - rewrite Z.mul_1_r in Hf. rewrite Hf. apply zeqb_true. reflexivity.
+  - rewrite Z.mul_1_r in Hf. rewrite (Z.mul_comm 1000 (qvalue m)), Z.mod_mul, Z.div_mul by lia.
+    rewrite Z.mul_comm, whole_up_qvalue, Hf. reflexivity.
+Qed.
+
+Theorem law_sub_assert_model eps r rr :
+  law_sub_assert (match sub_assert eps r rr with SubPanic => true | SubOk _ => false end)
+                 (less_equal eps rr r DZero) = true.
+Proof. unfold law_sub_assert, sub_assert. destruct (less_equal eps rr r DZero); reflexivity. Qed.
